@@ -70,14 +70,23 @@ def r2_for(ctx: Ctx) -> None:
     k = unparse(lp.target)
     events = [(_event(s), s) for s in lp.body]
     seq = [e for e, _ in events if e]
-    ctx.check(seq == ["append", "use", "scope", "body", "body", "pop", "restore"], "generate_for:iteration-shape", f"per iteration: {seq}")
-    syms = [c for c in calls_in(lp) if call_name(c) == "SymbolNode"]
-    ok = len(syms) == 1 and unparse(syms[0].args[0]) == "node.symbol" and unparse(syms[0].args[1]) == f"ExpressionAstNode([Term(Token(TokenType.NUMBER, str({k})))])"
-    ctx.check(ok, "generate_for:binds-symbol", f"the loop symbol is bound to the iteration value; found {[unparse(s)[:70] for s in syms]}")
-    if syms:
-        i_sym = next(i for i, (e, s) in enumerate(events) if any(x is syms[0] for x in ast.walk(s)))
-        i_scope = next((i for i, (e, s) in enumerate(events) if e == "scope"), -1)
-        ctx.check(i_sym == i_scope + 1, "generate_for:symbol-right-after-scope", "the binding is the first node of the iteration's scope")
+    core = [e for e in seq if e != "body"]
+    ctx.check(core == ["append", "use", "scope", "pop", "restore"], "generate_for:iteration-shape", f"per iteration: {seq}")
+    # the loop symbol is bound while the body is expanded: .if, inner .for bounds and := evaluate at expansion time
+    binds = [c for c in calls_in(lp) if (call_name(c) or "").endswith("current_scope.add_symbol") and unparse(c.args[0]) == "node.symbol"]
+    deferred = [c for c in calls_in(lp) if call_name(c) == "SymbolNode" and unparse(c.args[0]) == "node.symbol"]
+    gens0 = [c for c in calls_in(lp) if call_name(c) == "_code_gen"]
+    if not binds:
+        ctx.fail("generate_for:binds-symbol", "the loop symbol is not defined in the iteration's scope while the body is expanded"
+                 + (" (only a SymbolNode evaluated at label resolution): `.if k`, `.for j := 0, k` and `v := k` inside the body do not see it" if deferred else ""))
+    else:
+        b = binds[0]
+        ctx.check(unparse(b.args[1]) == k, "generate_for:binds-symbol", f"the loop symbol is bound to the iteration value {k}; found `{unparse(b.args[1])}`")
+        def idx(node: ast.AST) -> int:
+            return next(i for i, s in enumerate(lp.body) if any(x is node for x in ast.walk(s)))
+        i_use = next((i for i, (e, s) in enumerate(events) if e == "use"), -1)
+        ctx.check(bool(gens0) and i_use < idx(b) < idx(gens0[0]) and isinstance(lp.body[idx(b)], ast.Expr), "generate_for:bound-before-expansion",
+                  "bound in the iteration's own scope (after use_next_scope) and before the body is expanded, unconditionally")
     gens = [c for c in calls_in(lp) if call_name(c) == "_code_gen"]
     ctx.check(len(gens) == 1 and unparse(gens[0].args[0]) == "node.body.body", "generate_for:body-once", "the body is expanded once per iteration")
     apps = [c for c in calls_in(lp) if (call_name(c) or "").endswith("append_internal_scope")]
